@@ -23,7 +23,9 @@ func rtJobs(th bool) []driver.Job {
 	return out
 }
 
-func special(s string) bool { return s == "" || s == "p:q:r" || s == "ü" || s == "<&>" }
+func special(s string) bool {
+	return s == "" || s == "p:q:r" || s == "ü" || s == "<&>" || s == " s p " || s == "\t"
+}
 
 func rtRun(c *driver.Ctx, d *doc, addr string, name string) {
 	pair := [2]string{addr, addr}
